@@ -42,6 +42,9 @@ func runC02(c *an.Ctx) {
 	ruleO2b(c)
 	ruleO7(c)
 	ruleO8(c)
+	// O9 (round 11, seed C02_k): a reused attempt id lets a late `complete` of an abandoned attempt complete the
+	// current one, and the join starts while the chunk still runs - the rule of J8 / R3c, needed here too.
+	ruleUniqOrder(c, "O9")
 }
 
 // ---------------------------------------------------------------------------
